@@ -28,6 +28,8 @@ vals = [
     2**24, 2**24 + 1, F(1, 2) + F(1, 2**30),
     # a single whose exact value has more digits than its shortest round-trip decimal ("1.0000001")
     1 + F(1, 2**23),
+    # one unit in the last place away from a multiple (quotients exact, below 2^53)
+    1 + F(1, 2**52), 2**51 + F(1, 2), 4 + F(1, 2**50),
 ]
 # two doubles that differ in the last bit: 0.1+0.2 and 0.3
 vals += [F(0.1 + 0.2), F(0.3)]
@@ -58,7 +60,8 @@ for r, q in enumerate(vals):
         "exact": dec_exact(q),
         "isInt": q.denominator == 1,
         "f64": f64_exact(q),
-        "small": abs(q) <= 2**32 and q.denominator <= 4,
+        # the domain of multipleOf: dyadic, exactly a float64, quotients by the operands below 2^53
+        "small": f64_exact(q) and abs(q) <= 2**50 + 2**49 * 3,
     })
     if f64_exact(q):
         assert F(float(nums[-1]["text"])) == q, q
@@ -67,7 +70,7 @@ for r, q in enumerate(vals):
 rank_of = {q: r for r, q in enumerate(vals)}
 # multipleOf operands; instances restricted to "small" so float arithmetic is exact
 mult_ops = [F(1, 4), F(1, 2), 1, F(3, 2), 2, 3]
-small = [q for q in vals if abs(q) <= 2**32 and q.denominator <= 4]
+small = [q for q in vals if f64_exact(q) and abs(q) <= 2**50 + 2**49 * 3]
 div = {}
 for m in mult_ops:
     for q in small:
@@ -125,6 +128,10 @@ strings = {
     # names whose byte order differs from the order of their JSON encodings ('"' = 0x22 ends an encoded
     # key; '<', '&', '"', '\\' are escaped by encoding/json)
     "a!": "a!", "a b": "a b", "a<b": "a<b", "aZ": "aZ", "a_q": "a\"", "a_bs": "a\\", "a&": "a&",
+    # characters JSON writes as \u00XX (other quoting conventions write \x01, \a, \v, \x7f, \U000E0001)
+    # a key that needs a pointer escape AND holds characters beyond ASCII (Ł = U+0141: its low byte is 'A')
+    "U_e1/a": "\u00e9/a", "~U_e1": "~\u00e9", "U_L/x": "\u0141/x", "A/x": "A/x",
+    "C_01": "a\u0001b", "C_07": "\u0007", "C_0b": "\u000b", "C_7f": "\u007f", "U_tag": "\U000E0001",
 }
 patterns = {
     "^a": "^a", "b$": "b$", "a.c": "a.c", "^[ab]+$": "^[ab]+$", "b": "b",
@@ -174,7 +181,8 @@ for name, q in [("R_m129", -129), ("R_m128", -128), ("R_m2", -2), ("R_m1h", F(-3
                 ("R_i64min", -2**63), ("R_u64max", 2**64 - 1), ("R_2p64", 2**64),
                 ("R_p1p2", F(0.1 + 0.2)), ("R_p3", F(0.3)),
                 ("R_2p24", 2**24), ("R_2p24p1", 2**24 + 1), ("R_hEps", F(1, 2) + F(1, 2**30)),
-                ("R_1eps32", 1 + F(1, 2**23))]:
+                ("R_1eps32", 1 + F(1, 2**23)),
+                ("R_1ulp", 1 + F(1, 2**52)), ("R_2p51h", 2**51 + F(1, 2)), ("R_4ulp", 4 + F(1, 2**50))]:
     out.append("%s == %d" % (name, rank_of[F(q)]))
 out.append("\\* NumReps[n]: Go numeric representations that hold the value exactly")
 out.append("NumReps == " + fun([(str(n["rank"]), "{" + ", ".join(tla_str(r) for r in n["reps"]) + "}") for n in nums]))
